@@ -1800,6 +1800,13 @@ package gohlslib
 //@   ensures a != b ==> result0 != result1
 //@ end
 
+//@ func verifLemmaAccessors
+//@   props C03 C04 C05
+//@   requires f != nil && m != nil && p != nil && anylock()
+//@   ensures result0 == f.endDTS - f.startDTS && result1 == m.endDTS - m.startDTS && result2 == p.endDTS - p.startDTS && result3 == g.duration
+//@   ensures result4 == f.path && result5 == m.path
+//@ end
+
 // isVideo is used as a specification function below: its own contract pins it to the codec list of the README
 //@ func isVideo
 //@   props C02 C16
